@@ -1072,6 +1072,11 @@ func (env *Zlisp) LeftBindingPower(sx Sexp) (int, error) {
 		}
 		if found {
 			//Q("LeftBindingPower: found op '%#v', returning op.Bp = %v", op, op.Bp)
+			if op.MunchLeft == nil {
+				// a prefix-only operator (not) does not bind to
+				// the left: it starts a new expression, like 'if'.
+				return 0, nil
+			}
 			return op.Bp, nil
 		}
 		if x.isDot {
